@@ -58,6 +58,9 @@ struct System {
   // optional hook run after every assignment change (e.g. re-derive dependent parameters)
   std::function<void(Params&)> derive;
   std::vector<std::string> extra_props;  // further properties its expectations are tagged with (e.g. C07 gradients)
+  // extra two-deviation assignments explored even when the deviation bound is 1: both parameters of a pair set to 0 (shortcuts that
+  // fire only when several amplitudes vanish together). Returns a group label; pairs are formed inside a group. Empty label = not grouped.
+  std::function<std::string(const std::string&)> zero_pair_group;
   bool pointwise_admissibility;  // an inadmissible (assignment, point) pair drops only that point, not the whole assignment
   bool base_from_default;  // base = library defaults x distinct factors in (1, 1.07) instead of the generic base
   int max_dev_quick, max_dev_thorough;
